@@ -1,0 +1,10 @@
+//go:build verif
+
+package definition
+
+// Interface-level contracts owed by user components (assumption A-CALLBACK): Order() is a pure, deterministic
+// function of the component.
+
+//@ method (Ordered).Order
+//@ pure
+//@ assigns nothing
